@@ -281,6 +281,8 @@ def stream(ck):
             ck.anchor_missing("6", "T8-sibling-agreement", q)
             continue
         pg = [cs for cs in b.calls() if cs.name == "ping" and not b.is_cleanup(cs.bb)]
+        # one entry point may delegate to the other, which is checked itself
+        pg += [cs for cs in b.calls() if not b.is_cleanup(cs.bb) and cs.callee_body() is not None and cs.callee_body().qual in ("<PingWaker as Wake>::wake", "<PingWaker as Wake>::wake_by_ref") and cs.callee_body().qual != q]
         ck.verdict(bool(pg) and T.t2_all_exits(b, [0], [p.bb for p in pg]) is None, "6", "T8-sibling-agreement", b, "waker-pings", "the waker pings the source on every path", "%s does not ping: a wake through this entry point is lost" % q, site=b.where())
 
 
